@@ -615,6 +615,27 @@ impl<K: KeyLike> Sut<K> {
         v
     }
 
+    /// entries the hash indexes count but cannot find any more, summed over the inner lists
+    /// (0 with a sound hash map; see `RawLRU::verif_index_lost`)
+    pub fn index_lost(&self) -> usize {
+        match &self.c {
+            SutC::Lru(c) => c.verif_index_lost(),
+            SutC::LruCb(c) => c.verif_index_lost(),
+            SutC::LruCbD(c) => c.verif_index_lost(),
+            SutC::Seg(c) => c.verif_probationary().verif_index_lost() + c.verif_protected().verif_index_lost(),
+            SutC::TwoQ(c) => c.verif_recent().verif_index_lost() + c.verif_frequent().verif_index_lost() + c.verif_ghost().verif_index_lost(),
+            SutC::Arc(c) => {
+                c.verif_recent().verif_index_lost()
+                    + c.verif_frequent().verif_index_lost()
+                    + c.verif_recent_evict().verif_index_lost()
+                    + c.verif_frequent_evict().verif_index_lost()
+            }
+            SutC::Wtl(c) => {
+                c.verif_window().verif_index_lost() + c.verif_main().verif_probationary().verif_index_lost() + c.verif_main().verif_protected().verif_index_lost()
+            }
+        }
+    }
+
     /// structural audit of every inner list
     pub fn audit(&self) -> Result<(), String> {
         let names = self.kind.list_names();
